@@ -258,3 +258,73 @@ Proof.
   - intros s c Hc. destruct c as [|a t]; [contradiction | left; reflexivity].
   - vm_compute. repeat split; reflexivity.
 Qed.
+
+(** 8. Leiden._aggregate_refine, the LABEL step (Model/Leiden.v, Proofs/LeidenProofs.v):
+      [labels_ = membership_refined.T.tocsr().dot(membership).indices].
+    The product has one row per refined cluster; [.indices] is a vector with one entry per refined cluster
+    only when every row has exactly one stored entry. Under the contract of the refinement kernel
+    (refined clusters are subsets of coarse clusters) and np.unique's compaction (every refined label is
+    used: [np_unique_refined_labels_used] below) the coded step is well defined and correct: [out] has
+    exactly one entry per refined cluster, entry r is the coarse label shared by ALL the members of r, and
+    it is below the number of coarse clusters. *)
+From SKN Require Import Model.Leiden Proofs.LeidenProofs.
+Set Warnings "-notation-overridden". (* keep: a line with a parenthesis after the imports *)
+
+Theorem aggregate_refine_labels_correct (labels refined : list Z) (kr kc : nat) (out : list nat) :
+  (forall l, In l labels -> (0 <= l)%Z) -> (forall l, In l refined -> (0 <= l)%Z) ->
+  let n := length labels in
+  (forall x y, x < n -> y < n -> nthz refined x = nthz refined y -> nthz labels x = nthz labels y) ->
+  (forall r, r < kr -> In (Z.of_nat r) refined) ->
+  aggregate_refine_labels labels refined = Ok (kr, kc, out) ->
+  length refined = n /\
+  out = map (coarse_label_of labels refined) (seq 0 kr) /\
+  length out = kr /\
+  (forall v, v < n -> Z.to_nat (nthz refined v) < kr /\
+                      nthn out (Z.to_nat (nthz refined v)) = Z.to_nat (nthz labels v)) /\
+  (forall r, r < kr -> nthn out r < kc).
+Proof. exact (aggregate_refine_labels_correct_pf labels refined kr kc out). Qed.
+Print Assumptions aggregate_refine_labels_correct.
+
+(** [labels_refined] is np.unique's inverse index in Leiden.fit: non-negative, every label used. *)
+Theorem np_unique_refined_labels_used (raw : list Z) (kr : nat) (Mr : mat) :
+  let refined := map Z.of_nat (snd (unique_inverse raw)) in
+  get_membership refined None = Ok (kr, Mr) ->
+  (forall l, In l refined -> (0 <= l)%Z) /\ (forall r, r < kr -> In (Z.of_nat r) refined).
+Proof. exact (np_unique_all_labels_used raw kr Mr). Qed.
+Print Assumptions np_unique_refined_labels_used.
+
+(** One label per node across aggregation levels, Leiden case. Following the levels, then
+    [labels_refined] (the membership composed when the loop continues) and the coded coarse labels of the
+    aggregated nodes, gives the same label as following the levels and then the coarse labels of the
+    level itself (the membership composed by the [stop] branch, [labels_original]): the coarse partition
+    of the aggregated graph IS the coarse partition of the original nodes. With theorem 4 this is the
+    label reported for every original node. *)
+Theorem leiden_membership_composition (levels : list (list Z)) (labels refined : list Z) (kr kc : nat)
+        (out : list nat) (v : nat) :
+  (forall l, In l labels -> (0 <= l)%Z) -> (forall l, In l refined -> (0 <= l)%Z) ->
+  let n := length labels in
+  (forall x y, x < n -> y < n -> nthz refined x = nthz refined y -> nthz labels x = nthz labels y) ->
+  (forall r, r < kr -> In (Z.of_nat r) refined) ->
+  aggregate_refine_labels labels refined = Ok (kr, kc, out) ->
+  compose_fn levels v < n ->
+  compose_fn (levels ++ [refined]) v < kr /\
+  compose_fn (levels ++ [refined; map Z.of_nat out]) v = compose_fn (levels ++ [labels]) v.
+Proof. exact (leiden_composition_pf levels labels refined kr kc out v). Qed.
+Print Assumptions leiden_membership_composition.
+
+(** Non-vacuity: 6 nodes, coarse labels 1,1,0,0,1,2, refined labels 0,3,1,1,0,2 (four refined clusters
+    inside three coarse ones): labels_ = [1; 0; 2; 1] (the value scipy returns). Without the contract
+    (refined cluster 0 = {0,1,2} meets the coarse clusters 1 and 0) [.indices] has 5 entries for 3
+    aggregated nodes: the hypothesis cannot be dropped. *)
+Example c05_leiden_nonvacuous :
+  aggregate_refine_labels [1; 1; 0; 0; 1; 2]%Z [0; 3; 1; 1; 0; 2]%Z = Ok (4, 3, [1; 0; 2; 1]) /\
+  (forall x y, x < 6 -> y < 6 -> nthz [0; 3; 1; 1; 0; 2]%Z x = nthz [0; 3; 1; 1; 0; 2]%Z y ->
+               nthz [1; 1; 0; 0; 1; 2]%Z x = nthz [1; 1; 0; 0; 1; 2]%Z y) /\
+  (forall r, r < 4 -> In (Z.of_nat r) [0; 3; 1; 1; 0; 2]%Z) /\
+  aggregate_refine_labels [1; 1; 0; 0; 1; 2]%Z [0; 0; 0; 1; 1; 2]%Z = Ok (3, 3, [0; 1; 0; 1; 2]).
+Proof.
+  split; [vm_compute; reflexivity|]. split; [|split; [|vm_compute; reflexivity]].
+  - intros x y Hx Hy.
+    do 6 (destruct x as [|x]; [do 6 (destruct y as [|y]; [vm_compute; congruence|]); lia|]). lia.
+  - intros r Hr. do 4 (destruct r as [|r]; [vm_compute; tauto|]). lia.
+Qed.
